@@ -5,5 +5,5 @@ CONSTANTS
   Elem <- ElemDef
   LongLens = {17}
   PerLen = 1
-INVARIANTS MirrorOK RankLoopOK PartitionOK QuantileHomogeneous EmitOrder
+INVARIANTS MirrorOK RankLoopOK PartitionOK QuantileHomogeneous NearIsNeighbour EmitOrder
 CHECK_DEADLOCK FALSE
